@@ -619,7 +619,9 @@ def oracle(ctx, deep=False, only=None):
             fam = rng.choice(["sl", "dl", "hyp"])
             p = pair_for(fam)
             plan = [(fam, p)]
-            pots = [(rng.choice(["sl", "dl"]), rng.choice(KINDS))]
+            # both potential families on every run (seed C05-b: the imaginary-k dispatch of ONE family was wrong and a
+            # run that sampled only the other one missed it); one grid each in the quick tier
+            pots = [("sl", rng.choice(KINDS)), ("dl", rng.choice(KINDS))]
         res.stats["plan"] = [f"{f}:{_kname(p[0])}<-{_kname(p[1])}" for f, p in plan]
         res.stats["potentials"] = [f"{pop}:{_kname(kd)}" for pop, kd in pots]
         res.stats["grids"] = [f"{G['name']}:{G['grid'].number_of_elements}el:{G['regular_pairs']}regular-pairs"
@@ -659,8 +661,9 @@ def oracle(ctx, deep=False, only=None):
                     run.symmetry(G, "hyp", dom, dom, f"{_kname(kd)}<-{_kname(kd)}", rng.choice(POS_REG))
             ctx.log(f"C05 oracle: {fam} {tags} done, {res.evaluations} cases, {time.time() - t0:.0f}s")
 
-        for pop, kd in pots:
-            for G in [rng.choice(closed), rng.choice(opened)]:
+        for ipot, (pop, kd) in enumerate(pots):
+            for G in ([rng.choice(closed), rng.choice(opened)] if (full or only is not None) else
+                      [rng.choice(closed if (ipot + ctx.seed) % 2 == 0 else opened)]):
                 sp_ = _space(api, G, kd, rng)
                 run.potentials(G, pop, sp_, _kname(kd), rng.choice(ALL_REG), ctx.pick(2, 3))
             ctx.log(f"C05 oracle: potential {pop} {_kname(kd)} done, {res.evaluations} cases, {time.time() - t0:.0f}s")
